@@ -1,10 +1,10 @@
 SPECIFICATION Spec
 CONSTANTS
-  Pool <- PoolI
-  Kids <- KidsI
-  TypeOf <- TypeI
-  HashOf <- HashI
-  MaxEnc = 3
+  Pool <- PoolX
+  Kids <- KidsX
+  TypeOf <- TypeX
+  HashOf <- HashX
+  MaxEnc = 2
   Aux = TRUE
   AllowUnregistered = TRUE
   PinDecoded = TRUE
